@@ -291,7 +291,7 @@ impl Property for C20 {
                     _ => shape_strategy(),
                 };
                 // (rows per batch, batches of t, batches of u)
-                let sizes = if fault.needs_spill() { (150u32..500 * big, 3u32..=7, 1u32..=3).boxed() } else { (3u32..40 * big, 1u32..=7, 1u32..=3).boxed() };
+                let sizes = if fault.needs_spill() { (40u32..150 * big, 8u32..=20, 1u32..=3).boxed() } else { (3u32..40 * big, 1u32..=7, 1u32..=3).boxed() };
                 let strs = if fault.needs_spill() { pick(vec![60u16, 120, 200]) } else { pick(vec![4u16, 8, 24, 60]) };
                 (Just(fault), shape, prop::bool::weighted(0.3), prop::option::weighted(0.25, 1u32..60), sizes, (any::<u32>(), strs, 0u8..25), cfg_strategy())
             })
@@ -299,7 +299,9 @@ impl Property for C20 {
                 cfg.batch_rows = batch_rows;
                 let rows_t = batch_rows * nb_t - (seed % batch_rows.max(1)).min(batch_rows - 1);
                 let rows_u = (batch_rows * nb_u).min(400) - (seed >> 8) % batch_rows.clamp(1, 3);
-                let data = DataSpec { rows_t, rows_u, seed, key_card: (rows_u / 2).max(4), str_len, null_pct };
+                // spill kinds: many groups so that hash aggregation spills, too
+                let key_card = if fault.needs_spill() { (rows_t / 2).max(4) } else { (rows_u / 2).max(4) };
+                let data = DataSpec { rows_t, rows_u, seed, key_card, str_len, null_pct };
                 Case { data, query: QuerySpec { shape, order, limit }, cfg, fault }
             })
             .boxed()
@@ -495,10 +497,14 @@ impl Property for C20 {
                         labels.push("ok-exact-though-reached-nolimit-nojoin".into());
                     }
                 }
-                StreamEnd::Failed { kind, rows_before, .. } => {
+                StreamEnd::Failed { kind, rows_before, message, .. } => {
                     labels.push("error-surfaced".into());
                     if *kind != ErrKind::Injected {
                         labels.push(format!("error-without-marker-{kind:?}"));
+                        if *kind == ErrKind::Other {
+                            let short: String = message.chars().take(90).map(|c| if c.is_ascii_digit() { '#' } else { c }).collect();
+                            labels.push(format!("other-error: {short}"));
+                        }
                     }
                     if *rows_before > 0 {
                         labels.push("error-after-rows".into());
